@@ -140,6 +140,19 @@ def task_full(a, env):
                 r.viol("C06:full:%s" % bad[0], ME + ":replay",
                        {"cfg": "full", "d": hex(d), "h": h.hex()}, bad[1], bad[2])
     if a["lo"] == 0:
+        # (key, hash) pairs whose nonce starts with >= 24 zero bits (model search, golden file, re-validated here)
+        import json
+        import os
+        gp = os.path.join(os.path.dirname(os.path.dirname(os.path.dirname(os.path.abspath(__file__)))), "golden", "short_nonces.json")
+        for pr in json.load(open(gp))["pairs"]:
+            priv, h = bytes.fromhex(pr["priv"]), bytes.fromhex(pr["hash"])
+            assert ecdsa.nonce(h, priv) >> 232 == 0  # the model confirms the golden entry
+            d = int.from_bytes(priv, "big")
+            cls, bad = _check(S, m, d, h)
+            r.ev += 1
+            r.dk.add((d, h))
+            if bad:
+                r.viol("C06:full:%s:short-nonce" % bad[0], ME + ":replay", {"cfg": "full", "d": hex(d), "h": h.hex()}, bad[1], bad[2])
         r.sample({"d": hex(ds[0]), "hash": hs[2].hex()})
     return r
 
